@@ -335,7 +335,7 @@ def convert_custom_data(
     0  0.3  3  5
     1  0.3  5  7
 
-    >>> params_custom_list = [["_"], ["_", "_"]]
+    >>> params_custom_list = ["_", ["_", "_"]]
     >>> params_names = ["beta", "trap_densities"]
 
     >>> convert_custom_data(
@@ -354,8 +354,9 @@ def convert_custom_data(
     Notes
     -----
     - The length of `params_custom_list` should match the length of `params_names`.
-    - If an entry in `params_custom_list` contains multiple placeholders (e.g., `["_", "_"]`),
+    - If an entry in `params_custom_list` is a list of placeholders (e.g., `["_", "_"]` or `["_"]`),
       the corresponding columns in `custom_data` will be combined into tuples in the resulting DataFrame.
+      The single placeholder `"_"` takes one column as it is.
     """
 
     # Late import to speedup start-up time
@@ -365,9 +366,9 @@ def convert_custom_data(
     num_columns = len(custom_data.columns)
 
     idx = 0
-    params: Sequence[Literal["_"]]
+    params: Literal["_"] | Sequence[Literal["_"]]
     for name, params in zip(params_names, params_custom_list, strict=False):
-        if len(params) == 1:
+        if params == "_":
             assert idx < num_columns
             new_custom_data[name] = custom_data.iloc[:, idx]
             idx += 1
@@ -502,8 +503,8 @@ class CustomMode:
             image_file  (id) object 48B 'FITS/00001.fits' ... 'FITS/00006.fits'
           * id          (id) int64 48B 0 1 2 3 4 5
         """
-        all_steps: Mapping[str, Sequence[Any]] = {
-            step.key: list(step) for step in self.enabled_steps
+        all_steps: Mapping[str, Any] = {
+            step.key: step.values for step in self.enabled_steps
         }
         params_names = [dim_names[key] for key in all_steps]
 
